@@ -17,7 +17,7 @@ Judge(e) ==
     THEN { "C04:diagnostic-on-conforming-program:" \o ds[i].code : i \in 1..Len(ds) }
   ELSE
     LET codes == SeqSet(c.codes)
-        lines == {c.line} \cup (IF c.alt >= 0 THEN {c.alt} ELSE {})
+        lines == IF c.alt >= 0 THEN c.alt..c.line ELSE {c.line}    \* alt: first label line in front of the instruction
         hit == \E i \in 1..Len(ds) : ds[i].code \in codes /\ ds[i].line \in lines /\ (c.reg = -1 \/ ds[i].reg = c.reg)
         somewhere == \E i \in 1..Len(ds) : ds[i].code \in codes
         online == \E i \in 1..Len(ds) : ds[i].code \in codes /\ ds[i].line \in lines
